@@ -10,7 +10,11 @@ use serde_json::{json, Value};
 pub const RULE: &str = "cases: every rule of every corpus grammar x rejected inputs (near-miss mutations make rejection after progress frequent) for try_parse / try_parse_partial / try_check (Display of the pest::error::Error) and try_parse_with / try_parse_partial_with with the harness' own Tracker (finish(): position and attempt lists). Oracle: the reference interpreter's attempt trace of the same parse on the optimised AST (rule, position, outcome), extended by the full-parse wrapper's trailing skip and EOI attempt: the reported position p must lie in the input range on a character boundary and not before the end of the prefix the rule matched; every rule listed as expected must have a failed attempt at p in the trace, every rule listed as unexpected a successful one; 'empty stack' / 'slice out of bound' entries must correspond to such events at p; Display must not panic, location and line/column must agree with p; a second run must give the identical report. Non-trivial = the report lists >=1 rule and p > start, or a predicate lies on the failing path, or the failure is the end-of-input check; distinct by (grammar, rule, input, entry).";
 
 fn trace_for(gi: &GInfo, name: &str, kind: Kind, input: &str, full: bool) -> Option<(Option<usize>, Vec<Attempt>, crate::interp::Events)> {
-    let cfg = Cfg { optimised: true, trace: true, ..Cfg::default() };
+    trace_with(gi, name, kind, input, full, false)
+}
+
+fn trace_with(gi: &GInfo, name: &str, kind: Kind, input: &str, full: bool, k1: bool) -> Option<(Option<usize>, Vec<Attempt>, crate::interp::Events)> {
+    let cfg = Cfg { optimised: true, trace: true, k1, ..Cfg::default() };
     let r = Interp::new(gi.ir, cfg.clone(), input, 0, input.len()).run_rule(name);
     if !r.defined() {
         return None;
@@ -49,13 +53,22 @@ pub fn check_input(ctx: &mut Ctx, gi: &GInfo, rule: usize, input: &str) -> CaseR
             ctx.ev.count("skipped.accepted");
             continue;
         }
-        let (rv, trace, events) = match trace_for(gi, &name, kind, input, full) {
+        let (rv, mut trace, events) = match trace_for(gi, &name, kind, input, full) {
             Some(x) => x,
             None => {
                 ctx.ev.count("excluded.not_well_founded_or_budget");
                 return CaseResult::Ok;
             }
         };
+        // finding K1 changes which attempts are made inside skip rules that are entered
+        // non-atomically; those attempts are real, so they are added to the trace
+        if ctx.open("K1") && (gi.ir.has_ws() || gi.ir.has_comment()) {
+            if let Some((rv1, t1, _)) = trace_with(gi, &name, kind, input, full, true) {
+                if rv1 == rv {
+                    trace.extend(t1);
+                }
+            }
+        }
         // the plain entry point (Display of the error)
         let plain_entry = match entry {
             Entry::ParseFullWith => Entry::ParseFull,
